@@ -462,3 +462,23 @@ func rootOf(t *Term) *Term {
 func isZeroish(t *Term) bool {
 	return t != nil && (t.Op == "zero" || (t.Op == "call" && t.Sym == "typ.Zero") || (t.Op == "const" && (t.Sym == "0" || t.Sym == "nil" || t.Sym == `""` || t.Sym == "false")))
 }
+
+// isParamOrSpill: t is parameter idx, or a load of the cell the parameter was spilled to (and nothing else was stored there).
+func isParamOrSpill(p *Path, t *Term, idx int) bool {
+	if isParam(t, idx) {
+		return true
+	}
+	if t == nil || t.Op != "load" || t.Args[0].Op != "alloc" {
+		return false
+	}
+	cell := t.Args[0]
+	n, ok := 0, false
+	for i := range p.Events {
+		e := &p.Events[i]
+		if e.Kind == "store" && e.Addr.Key() == cell.Key() {
+			n++
+			ok = isParam(e.Val, idx)
+		}
+	}
+	return n == 1 && ok
+}
